@@ -53,6 +53,10 @@ pub fn threads() -> usize {
 }
 
 pub fn run_e1(jobs: Vec<E1Job>, check: &GraphCheck, rep: &mut Report) {
+    let jobs: Vec<E1Job> = match std::env::var("VERIF_ONLY") {
+        Ok(f) => jobs.into_iter().filter(|j| j.sc.name.contains(&f)).collect(),
+        Err(_) => jobs,
+    };
     let next = AtomicUsize::new(0);
     let out: Mutex<Vec<Report>> = Mutex::new(Vec::new());
     let prop = rep.prop.clone();
